@@ -221,6 +221,7 @@ CLAIMS = {
 
 # round-7 additions (appended to the claim text)
 ADDED7 = {
+    "C18": "the private-key object (constructor stores, == iff same public key and same secret, != negation) for every integer secret",
     "C02": "the BF3 body contracts (dir_to_binary: offsets advance by the STORED length; to_binary; from_binary(layout(f))=f) are discharged under this property too; bounded family with the encrypted configuration first",
     "C04": "BEC2 fault enumeration (every header byte, prefixes, body bytes, suffixes, text prefixes; one block of each kind with every key selector, multi-block headers, a reader with one ECC key per selector); compared: session key, content, fields of every OPENED block (an unopened block is opaque: the header has no MAC)",
     "C07": "Bec2File.__init__ / add_auth_block keep one block per kind (last wins, first-appearance order) and UnknownAuthBlock.unpack is a format error for every input (shared with C02, C03, C11); the ECC block's key derivation (shared x as exactly 32 bytes) and the independent unwrap are obligations here too",
